@@ -234,6 +234,13 @@ class Scope(object):
         scope = self
         while result is None and scope:
             result = scope.remapped_symbols.get(symbol)
+            if (result is None and symbol == 'arguments' and
+                    scope.parent is not None and
+                    not isinstance(scope, CatchScope)):
+                # every function implicitly binds `arguments`; unless
+                # the function declares that name itself, a reference
+                # inside it never reaches a declaration further out.
+                break
             scope = scope.parent
         return result or symbol
 
